@@ -113,7 +113,7 @@ void prop_c20(hz::Ctx &ctx) {
     c.p = outs & 1; c.r = progkind == 2 && (outs & 2); c.outkind = (outs >> 2) % 4; static const int CH[] = {0, 0, 0, 2, 3, 7, 16, 64}; c.chunk = CH[chunksel % 8]; static const int BK[] = {0, 0, 0, 2, 5, 16, 32, 4096}; c.brk = BK[brksel % 8];
     c.from_stdin = from_stdin; c.final_newline = nl; return c; },
     rc::gen::container<std::vector<int>>(range(0, 15)), rc::gen::container<std::vector<int>>(range(0, 1 << 20)), rc::gen::weightedElement<int>({{5, 0}, {2, 1}, {4, 2}}), range(0, 16), range(0, 8), range(0, 8), rc::gen::arbitrary<bool>(), range(0, 1 << 30), rc::gen::arbitrary<bool>());
-  rc_rounds(ctx, "C20-cli", ctx.thorough() ? 100000 : 10000, 40, [&]() {
+  rc_rounds(ctx, "C20-cli", ctx.thorough() ? 600000 : 80000, 40, [&]() {
     CliCase c = *gen_case; std::string id = ser20(c); if (!ctx.begin(id, cmdline(c))) return;
     int groups = (c.modeflags.empty() ? 0 : 1) + (c.p || c.outkind ? 1 : 0) + (c.chunk || c.brk ? 1 : 0) + (c.r ? 1 : 0);
     for (auto &l : c.lines) if (l.size() >= 100) { ctx.cls("line:100+chars"); break; }
